@@ -296,6 +296,61 @@ func Run(c *engine.Ctx) {
 	near := []string{"n", "N", "n "}
 	shapes("near-ids-n3-e2", near, near, types1, append(append([]string{}, near...), " n"), 2)
 
+	// target lists in every order: dangling targets (names of nodes the list does not hold) before, between and after
+	// existing ones, in one edge record and in two
+	{
+		c.Group("target-order")
+		ids := []string{"a", "b", "c", "d"}
+		pool := []string{"b", "c", "x", "y"}
+		var lists [][]string
+		var rec func(cur []string, used int)
+		rec = func(cur []string, used int) {
+			if len(cur) >= 2 {
+				lists = append(lists, append([]string{}, cur...))
+			}
+			if len(cur) == 3 {
+				return
+			}
+			for i, t := range pool {
+				if used&(1<<i) == 0 {
+					rec(append(cur, t), used|1<<i)
+				}
+			}
+		}
+		rec(nil, 0)
+		c.Bound("target-order", fmt.Sprintf("nodes %v; source a with every ordered target list of 2..3 of %v (x, y name no node: %d lists) x a second record {none, b->[x,d], c->[d,y]} x 2 edge types x roots {none, a} x every start", ids, pool, len(lists)))
+		for _, to := range lists {
+			for second := 0; second < 3; second++ {
+				for _, ty := range types2 {
+					for _, roots := range [][]string{nil, {"a"}} {
+						edges := []gen.EdgeSpec{{From: "a", Type: ty, To: to}}
+						switch second {
+						case 1:
+							edges = append(edges, gen.EdgeSpec{From: "b", Type: ty, To: []string{"x", "d"}})
+						case 2:
+							edges = append(edges, gen.EdgeSpec{From: "c", Type: sbom.Edge_contains, To: []string{"d", "y"}})
+						}
+						for _, st := range ids {
+							spec := gen.ListSpec{Nodes: ids, Edges: edges, Roots: roots}
+							st := st
+							c.Case(func() any { return caseDesc{List: spec, Start: st} }, func(t *engine.T) *engine.Violation {
+								nl := spec.Build()
+								obs, v := runAll(t, nl, st, 5)
+								if v != nil {
+									return v
+								}
+								t.Observe(obs)
+								t.State(gen.CanonKey(nl) + "@" + st + fmt.Sprint(spec.Edges[0].To))
+								t.Outcome("target-order " + outcomeClass(obs))
+								return nil
+							})
+						}
+					}
+				}
+			}
+		}
+	}
+
 	// identifiers that are decimal-suffix extensions of one another with edge type numbers whose decimal spellings
 	// extend one another ("n1"+"15" = "n11"+"5"): any key built by gluing identifier and type number merges them
 	{
